@@ -12,7 +12,7 @@ import ast
 
 from ..absint import Const, Dct, Domain, Interp, Leaf, Lst, Obj, Sym, Tup
 from ..cfg import build_cfg, make_opaque, names_in
-from ..common import Ctx, is_name, src
+from ..common import Ctx, call_name, is_name, src
 from ..explore import Explorer
 from ..model import AnalysisError, own_scope_nodes
 from .c06 import FreshRule, derived_names
@@ -247,6 +247,8 @@ def run(ctx: Ctx):
     )
     DRIVERS[D + "_cmtf_als.coupled_matrix_tensor_3d_factorization"].setdefault("normalize", ("normalize_factors", "cp_normalize"))
     ctx.guarded(normalise_on_exit, ctx)
+    res.rule("SCALE-FOLLOWS-FACTOR", "once a factorised tensor held in a local has been normalised (N = cp_normalize(N): the scale of every factor now sits in N.weights), a factor of N is not built into another factorised tensor without N.weights: the other model would silently lose that factor's scale (CMTF shares its coupled factor between the tensor and the matrix model)", floor=1)
+    ctx.guarded(scale_follows_factor, ctx)
     ctx.guarded(returns_validated, ctx)
     ctx.guarded(core_in_sync, ctx)
     res.rule("RANK-ROTATION", "tensor_ring: every sequence rotated by the starting mode (mode order, rank vector, factor list) is rotated as a cycle of n_dim entries; the rank vector's duplicated closing entry is not part of the cycle", floor=3)
@@ -360,3 +362,59 @@ def rank_rotation(ctx: Ctx):
             res.instance("RANK-ROTATION", f"{f.name}: {src(s_)[:70]}", sample={"line": s_.lineno, "sequence": name, "length": f"{ln[1]}*n_dim{ln[0]:+d}", "rotated_entries": f"{eff[1]}*n_dim{eff[0]:+d}", "ok": ok})
             if not ok:
                 ctx.finding("RANK-ROTATION", f, s_, f"`{src(s_)[:90]}` rotates all {ln[1]}*n_dim{ln[0]:+d} entries of `{name}` by the starting mode, but the ring has n_dim bonds: `{name}` carries the closing rank twice (rank[-1] == rank[0]), so after the rotation the duplicate sits in the middle and every later rank is attached to the wrong bond -- for mode >= 2 the returned cores do not have the requested ranks. Rotate the n_dim distinct entries and close the ring again", construct=f"{f.name}: whole-list rotation of `{name}` (n_dim+1 entries)")
+
+
+# ---------------------------------------------------------------------------------
+# SCALE-FOLLOWS-FACTOR: a factor taken out of a normalised model leaves its scale behind
+# ---------------------------------------------------------------------------------
+NORMALISERS_ = {"cp_normalize", "tucker_normalize", "parafac2_normalise"}
+CTORS_ = {"CPTensor", "TuckerTensor", "Parafac2Tensor", "cp_normalize", "tucker_normalize"}
+
+
+def scale_follows_factor(ctx: Ctx):
+    from ..cfg import build_cfg
+    from ..explore import Explorer
+
+    repo, res = ctx.repo, ctx.res
+    n = 0
+    for f in sorted(repo.functions.values(), key=lambda g: g.qname):
+        if not f.module.name.startswith("tensorly.decomposition.") or f.cls is not None:
+            continue
+        sites = [st for st in own_scope_nodes(f.node) if isinstance(st, ast.Assign) and len(st.targets) == 1 and isinstance(st.targets[0], ast.Name) and isinstance(st.value, ast.Call) and (call_name(st.value) or "") in NORMALISERS_ and len(st.value.args) == 1 and is_name(st.value.args[0], st.targets[0].id)]
+        if not sites:
+            continue
+
+        class Rule:
+            def init_state(self):
+                return frozenset()
+
+            def transfer(self, node, st, ex):
+                a = node.ast
+                if a is None or node.kind not in ("stmt", "return", "test", "for", "with"):
+                    return st
+                # uses first: a construction that takes N.factors[...] without N.weights
+                for c in ast.walk(a):
+                    if isinstance(c, ast.Call) and (call_name(c) or "") in CTORS_:
+                        inside = list(ast.walk(c))
+                        for nm in st:
+                            takes = [x for x in inside if isinstance(x, ast.Attribute) and x.attr == "factors" and is_name(x.value, nm)]
+                            whole = [x for x in c.args if is_name(x, nm)]
+                            has_w = any(isinstance(x, ast.Attribute) and x.attr in ("weights", "core") and is_name(x.value, nm) for x in inside)
+                            if takes and not has_w and not whole:
+                                ex.report(("SCALE-FOLLOWS-FACTOR", src(c)[:70]), f"`{src(c)[:90]}` builds a factorised tensor from a factor of `{nm}` after `{nm}` was normalised on this path, without `{nm}.weights`: the scale of that factor now sits in `{nm}.weights`, so the new model represents a differently scaled tensor / matrix", node)
+                if isinstance(a, ast.Assign) and len(a.targets) == 1 and isinstance(a.targets[0], ast.Name):
+                    t = a.targets[0].id
+                    if isinstance(a.value, ast.Call) and (call_name(a.value) or "") in NORMALISERS_ and len(a.value.args) == 1 and is_name(a.value.args[0], t):
+                        return st | {t}
+                    if t in st:
+                        return st - {t}
+                return st
+
+        g = build_cfg(f.node, f.qname)
+        ex = Explorer(g, Rule(), track="corr").run()
+        n += 1
+        res.instance("SCALE-FOLLOWS-FACTOR", f"{f.qname}: {len(sites)} local model(s) normalised in place", sample={"sites": [src(s_)[:60] for s_ in sites], "states": ex.states})
+        for v in ex.violations.values():
+            ctx.finding("SCALE-FOLLOWS-FACTOR", f, v.node.ast if v.node is not None else f.node, v.message, construct=f"{f.name}: {v.key[1]}", path=v.path)
+    if n == 0:
+        raise AnalysisError("SCALE-FOLLOWS-FACTOR: no decomposition normalises a local model object any more; nothing to decide")
